@@ -135,7 +135,7 @@ def run(ctx):
         for ev in rows:
             ev["case"] += case_base
             ev["mode"] = mode
-        case_base += n
+        case_base += st["traces"]
         groups.setdefault(tcfg, []).extend(rows)
         if mode == "default":
             for ev in rows:
